@@ -529,3 +529,1345 @@ Lemma C09_encode_total_lemma t v :
 Proof.
   intros Hwf Hty HL. change (2 ^ 64) with two64 in HL. exact (flat_enc_ok t Hwf v Hty HL).
 Qed.
+
+(* ------------------------------------------------------------------------------------ *)
+(** * 4. The reported byte lengths *)
+
+Definition len_ok (t : ty) : Prop :=
+  forall v, has_type v t = true -> lenN (spec_ser t v) < two64 ->
+  flat_len t v = lenN (spec_ser t v).
+
+Lemma len_fields_spec : forall fs, Forall len_ok fs -> forallb wf_ty fs = true ->
+  forall vs acc, has_type_fields fs vs = true ->
+  acc + sumN (map part_len (ser_fields fs vs)) < two64 ->
+  len_fields flat_len fs vs acc = acc + sumN (map part_len (ser_fields fs vs)).
+Proof.
+  induction fs as [|f fs IH]; intros HF Hwf [|x vs] acc Hty HL; cbn [has_type_fields] in Hty;
+    try discriminate Hty; [cbn; lia|].
+  pose proof (Forall_inv HF) as Hf; pose proof (Forall_inv_tail HF) as Hr.
+  cbn [forallb] in Hwf. apply andb_true_iff in Hwf. destruct Hwf as [Hwf1 Hwf2].
+  apply andb_true_iff in Hty. destruct Hty as [Hty1 Hty2].
+  cbn [ser_fields map len_fields] in *. rewrite sumN_cons in *.
+  unfold part_len at 1 in HL. unfold part_len at 1. cbn [fst snd] in *.
+  rewrite flat_fixed_len_zero by assumption. unfold flat_fixed_len.
+  destruct (spec_is_fixed f) eqn:Hfx; cbn [negb].
+  - rewrite <- (spec_ser_fixed_len f x Hfx Hty1).
+    rewrite add64_small by lia. rewrite IH by (auto; lia). lia.
+  - rewrite (Hf x Hty1) by lia. rewrite (add64_small (lenN _) 4) by lia.
+    rewrite add64_small by lia. rewrite IH by (auto; lia). lia.
+Qed.
+
+Lemma flat_len_ok : forall t, wf_ty t = true -> len_ok t.
+Proof.
+  assert (Hseries : forall e vs, wf_ty e = true -> len_ok e ->
+            forallb (fun x => has_type x e) vs = true ->
+            lenN (ser_parts (map (fun x => (spec_is_fixed e, spec_ser e x)) vs)) < two64 ->
+            (if spec_is_fixed e then mul64 (lenN vs) (spec_fixed_len e)
+             else fold_left (fun a x => add64 a (add64 4 (flat_len e x))) vs 0) =
+            lenN (ser_parts (map (fun x => (spec_is_fixed e, spec_ser e x)) vs))).
+  { intros e vs Hwe IHe Hall HL. rewrite ser_series_lenN in *.
+    destruct (spec_is_fixed e) eqn:Hfx.
+    - rewrite (sumN_map_const _ (spec_fixed_len e)) in *;
+        try (revert Hall; apply forallb_Forall_in; intros x Hx; apply spec_ser_fixed_len; assumption).
+      apply mul64_small. exact HL.
+    - assert (HF : Forall (fun x => add64 4 (flat_len e x) = 4 + lenN (spec_ser e x)) vs).
+      { apply Forall_forall. intros x Hin.
+        pose proof (sumN_map_In_le (fun x => 4 + lenN (spec_ser e x)) vs x Hin) as Hle. cbv beta in Hle.
+        rewrite IHe by (try (eapply seq_has_type_In; eassumption); lia).
+        apply add64_small. lia. }
+      rewrite (fold_add64_0 (fun x => add64 4 (flat_len e x)));
+        rewrite (sumN_map_ext _ _ vs HF); [reflexivity|exact HL]. }
+  induction t as [w| |n| |n|n|e n IHe|e n IHe|fs IHfs|none opts IHopts] using ty_ind';
+    intros Hwf v Hty HL; destruct v; cbn [has_type] in Hty; try discriminate Hty.
+  - cbn [flat_len spec_ser]. symmetry. apply lenN_le_bytes.
+  - reflexivity.
+  - apply N.eqb_eq in Hty. cbn [flat_len spec_ser]. symmetry. exact Hty.
+  - apply N.eqb_eq in Hty. cbn [flat_len spec_ser]. symmetry. exact Hty.
+  - apply N.eqb_eq in Hty. cbn [flat_len spec_ser]. rewrite bits_to_bytes_lenN. unfold lenN.
+    rewrite Hty. reflexivity.
+  - cbn [flat_len spec_ser]. rewrite ser_bitlist_lenN. reflexivity.
+  - cbn [wf_ty] in Hwf. apply andb_true_iff in Hwf. destruct Hwf as [_ Hwe].
+    apply andb_true_iff in Hty. destruct Hty as [_ Hall].
+    cbn [flat_len spec_ser] in *. apply Hseries; auto.
+  - cbn [wf_ty] in Hwf.
+    apply andb_true_iff in Hty. destruct Hty as [_ Hall].
+    cbn [flat_len spec_ser] in *. apply Hseries; auto.
+  - cbn [wf_ty] in Hwf. apply andb_true_iff in Hwf. destruct Hwf as [_ Hwfs].
+    change (has_type_fields fs vs = true) in Hty.
+    rewrite flat_len_cont. rewrite spec_ser_cont in *. rewrite ser_parts_lenN in *.
+    assert (IH' : Forall len_ok fs).
+    { rewrite Forall_forall in *. rewrite forallb_forall in Hwfs. intros f Hin. apply IHfs; auto. }
+    rewrite len_fields_spec by (auto; lia). lia.
+  - cbn [wf_ty] in Hwf. apply andb_true_iff in Hwf. destruct Hwf as [_ Hwfs].
+    change (has_type (VUnion sel v) (TUnion none opts) = true) in Hty.
+    rewrite flat_len_union. rewrite spec_ser_union in *.
+    destruct v as [x|].
+    + apply has_type_union_some in Hty. destruct Hty as (_ & o & Hnth & Htyx).
+      rewrite !pick_ty_nth_error in *. rewrite Hnth in *.
+      assert (Hin : In o opts) by (eapply nth_error_In; eassumption).
+      rewrite Forall_forall in IHopts. rewrite forallb_forall in Hwfs.
+      rewrite lenN_cons in *.
+      rewrite (IHopts o Hin (Hwfs o Hin) x Htyx) by lia. reflexivity.
+    + reflexivity.
+Qed.
+
+Lemma C09_length_lemma t v :
+  wf_ty t = true -> has_type v t = true -> lenN (spec_ser t v) < 2 ^ 64 ->
+  flat_len t v = lenN (spec_ser t v).
+Proof. intros Hwf Hty HL. exact (flat_len_ok t Hwf v Hty HL). Qed.
+
+(* ------------------------------------------------------------------------------------ *)
+(** * 1'. Views of the nested fixpoints of [flat_dec] *)
+
+Fixpoint dec_roots (k : nat) (st : rstate) (d : dreader) : res (val * ctree * rstate * dreader) :=
+  match k with
+  | O => OK (VSeq [], CFresh, st, d)
+  | S k' =>
+    do r <- dr_read st d 32; let '(bs, st1, d1) := r in
+    do more <- dec_roots k' st1 d1;
+    match more with
+    | (VSeq vs, c', st2, d2) => OK (VSeq (VBytes bs :: vs), c', st2, d2)
+    | _ => Err
+    end
+  end.
+
+Section DecFields.
+  Variable dec : ty -> fdecoder.
+  Variable c : ctree.
+  Fixpoint dec_fixed_fields (fs : list ty) (i : nat) (st : rstate) (d : dreader)
+    : res (list val * list ctree * rstate * dreader) :=
+    match fs with
+    | [] => OK ([], [], st, d)
+    | f :: fs' =>
+      do r <- dec f (ct_child c i) st d; let '(v, c1, st1, d1) := r in
+      do more <- dec_fixed_fields fs' (S i) st1 d1; let '(vs, cs, st2, d2) := more in
+      OK (v :: vs, c1 :: cs, st2, d2)
+    end.
+End DecFields.
+
+Definition dec_union_opt (sel : N) (st1 : rstate) (d1 : dreader) (o : ty)
+  : res (val * ctree * rstate * dreader) :=
+  if negb (flat_fixed_len o =? 0) && negb (flat_fixed_len o =? dr_scope d1) then Err else
+  do r <- flat_dec o CFresh st1 d1; let '(v, _, st2, d2) := r in
+  OK (VUnion sel (Some v), CFresh, st2, d2).
+
+Lemma flat_dec_vector e n c st d :
+  flat_dec (TVector e n) c st d =
+  if is_byte_elem e then
+    do r <- d_bytes c n st d; let '(bs, c', st1, d1) := r in
+    OK (VSeq (map (fun b => VUint (N_of_byte b)) bs), c', st1, d1)
+  else
+    let fsz := flat_fixed_len e in
+    if negb (fsz =? 0) then
+      do r <- d_vector_fixed (flat_dec e) c O (nat_of n) fsz st d; let '(vs, cs, st1) := r in
+      OK (VSeq vs, CNodes cs, st1, d)
+    else
+      let scope := dr_scope d in
+      do r <- d_read_offsets (nat_of n) st d; let '(offs, st1, d1) := r in
+      if negb (hd (mul64 4 n) offs =? mul64 4 n) then Err else
+      do r2 <- d_var_items (fun _ => flat_dec e) c O offs scope 0 true st1 d1;
+      let '(vs, cs, st2) := r2 in
+      OK (VSeq vs, CNodes cs, st2, d1).
+Proof. reflexivity. Qed.
+
+Lemma flat_dec_list e n c st d :
+  flat_dec (TList e n) c st d =
+  let scope := dr_scope d in
+  if is_byte_elem e then
+    if n <? scope then Err else
+    do r <- d_bytes c scope st d; let '(bs, c', st1, d1) := r in
+    OK (VSeq (map (fun b => VUint (N_of_byte b)) bs), c', st1, d1)
+  else if is_root_elem e then
+    if negb (scope mod 32 =? 0) then Err else
+    let len := scope / 32 in
+    if n <? len then Err else dec_roots (nat_of len) st d
+  else if scope =? 0 then OK (VSeq [], CFresh, st, d)
+  else
+    let fsz := flat_fixed_len e in
+    if negb (fsz =? 0) then
+      if negb (scope mod fsz =? 0) then Err else
+      let len := scope / fsz in
+      if n <? len then Err else
+      do r <- d_vector_fixed (flat_dec e) CFresh O (nat_of len) fsz st d; let '(vs, _, st1) := r in
+      OK (VSeq vs, CFresh, st1, d)
+    else
+      do r <- dr_read_u32 st d; let '(first, st1, d1) := r in
+      if negb (first mod 4 =? 0) then Err else
+      let len := first / 4 in
+      if n <? len then Err else
+      if (first =? 0) || (scope <? first) then Err else
+      do r2 <- d_read_offsets (nat_of (len - 1)) st1 d1; let '(offs, st2, d2) := r2 in
+      do r3 <- d_var_items (fun _ => flat_dec e) CFresh O (first :: offs) scope 0 false st2 d2;
+      let '(vs, _, st3) := r3 in
+      OK (VSeq vs, CFresh, st3, d2).
+Proof. reflexivity. Qed.
+
+Lemma flat_dec_cont fs c st d :
+  flat_dec (TContainer fs) c st d =
+  if forallb spec_is_fixed fs then
+    do x <- dec_fixed_fields flat_dec c fs O st d;
+    let '(vs, cs, st1, d1) := x in OK (VCont vs, CNodes cs, st1, d1)
+  else
+    let scope := dr_scope d in
+    let decs := map (fun f => (flat_fixed_len f, flat_dec f)) fs in
+    do r <- d_cont_fixed decs c O 0 st d; let '(dfs, prev, st1, d1) := r in
+    match first_var_off dfs with
+    | None => Err
+    | Some o0 =>
+      if negb (prev =? o0) then Err else
+      do r2 <- d_cont_var (combine dfs (map flat_dec fs)) c O scope st1 d1;
+      let '(vs, cs, st2) := r2 in
+      OK (VCont vs, CNodes cs, st2, d1)
+    end.
+Proof. reflexivity. Qed.
+
+Lemma flat_dec_union none opts c st d :
+  flat_dec (TUnion none opts) c st d =
+  do r <- dr_read_byte st d; let '(sel, st1, d1) := r in
+  if none && (sel =? 0) then
+    if negb (dr_scope d1 =? 0) then Err else OK (VUnion 0 None, CFresh, st1, d1)
+  else pick_ty Err (dec_union_opt sel st1 d1) opts (nat_of (if none then sel - 1 else sel)).
+Proof. reflexivity. Qed.
+
+(* ------------------------------------------------------------------------------------ *)
+(** * 7. The decoder never panics *)
+
+Definition np {A} (r : res A) : Prop := r <> Panic.
+Definition dec_np (dec : fdecoder) : Prop := forall c st d, np (dec c st d).
+
+Lemma np_bind {A B} (r : res A) (f : A -> res B) :
+  np r -> (forall a, np (f a)) -> np (bind r f).
+Proof. unfold np. intros Hr Hf. destruct r as [a| |]; cbn [bind]; [apply Hf|discriminate|exfalso; apply Hr; reflexivity]. Qed.
+
+Lemma np_OK {A} (a : A) : np (OK a). Proof. discriminate. Qed.
+Lemma np_Err {A} : np (@Err A). Proof. discriminate. Qed.
+
+Lemma dr_read_np st d k : np (dr_read st d k).
+Proof.
+  unfold dr_read. destruct (k =? 0); [apply np_OK|]. destruct (_ <? _); [apply np_Err|].
+  destruct (_ <? _); [apply np_Err|]. destruct (_ <? _); [apply np_Err|apply np_OK].
+Qed.
+
+Lemma dr_read_byte_np st d : np (dr_read_byte st d).
+Proof. unfold dr_read_byte. apply np_bind; [apply dr_read_np|]. intros [[bs st'] d']. apply np_OK. Qed.
+
+Lemma dr_read_u32_np st d : np (dr_read_u32 st d).
+Proof. unfold dr_read_u32. apply np_bind; [apply dr_read_np|]. intros [[bs st'] d']. apply np_OK. Qed.
+
+Lemma dr_sub_scope_np st d k : np (dr_sub_scope st d k).
+Proof. unfold dr_sub_scope. destruct (_ <? _); [apply np_Err|apply np_OK]. Qed.
+
+Lemma d_bytes_np c n st d : np (d_bytes c n st d).
+Proof. unfold d_bytes. apply np_bind; [apply dr_read_np|]. intros [[bs st'] d']. apply np_OK. Qed.
+
+Lemma in_sub_scope_np dec c size st d : dec_np dec -> np (in_sub_scope dec c size st d).
+Proof.
+  intros H. unfold in_sub_scope. apply np_bind; [apply dr_sub_scope_np|]. intros [st1 sd].
+  apply np_bind; [apply H|]. intros [[[v c'] st2] d2]. apply np_OK.
+Qed.
+
+Lemma d_vector_fixed_np dec cs : dec_np dec -> forall count i size st d,
+  np (d_vector_fixed dec cs i count size st d).
+Proof.
+  intros H. induction count as [|k IH]; intros i size st d; cbn [d_vector_fixed]; [apply np_OK|].
+  apply np_bind; [apply in_sub_scope_np, H|]. intros [[v c] st1].
+  apply np_bind; [apply IH|]. intros [[vs cs'] st2]. apply np_OK.
+Qed.
+
+Lemma d_read_offsets_np : forall count st d, np (d_read_offsets count st d).
+Proof.
+  induction count as [|k IH]; intros st d; cbn [d_read_offsets]; [apply np_OK|].
+  apply np_bind; [apply dr_read_u32_np|]. intros [[off st1] d1].
+  apply np_bind; [apply IH|]. intros [[offs st2] d2]. apply np_OK.
+Qed.
+
+Lemma d_var_items_np dec cs scope vstyle : (forall i, dec_np (dec i)) ->
+  forall offs i prev st d, np (d_var_items dec cs i offs scope prev vstyle st d).
+Proof.
+  intros H. induction offs as [|off rest IH]; intros i prev st d; cbn [d_var_items]; [apply np_OK|].
+  destruct (off <? prev); [apply np_Err|].
+  apply np_bind; [apply in_sub_scope_np, H|]. intros [[v c] st1].
+  apply np_bind; [apply IH|]. intros [[vs cs'] st2]. apply np_OK.
+Qed.
+
+Lemma d_cont_fixed_np cs : forall fs, Forall (fun p => dec_np (snd p)) fs ->
+  forall i prev st d, np (d_cont_fixed fs cs i prev st d).
+Proof.
+  induction fs as [|[fl dec] fs IH]; intros HF i prev st d; cbn [d_cont_fixed]; [apply np_OK|].
+  pose proof (Forall_inv HF) as Hf; pose proof (Forall_inv_tail HF) as Hr. cbn [snd] in Hf.
+  destruct (negb (fl =? 0)).
+  - apply np_bind; [apply in_sub_scope_np, Hf|]. intros [[v c] st1].
+    apply np_bind; [apply IH, Hr|]. intros [[[dfs p] st2] d2]. apply np_OK.
+  - apply np_bind; [apply dr_read_u32_np|]. intros [[off st1] d1].
+    apply np_bind; [apply IH, Hr|]. intros [[[dfs p] st2] d2]. apply np_OK.
+Qed.
+
+Lemma d_cont_var_np cs scope : forall fs, Forall (fun p => dec_np (snd p)) fs ->
+  forall i st d, np (d_cont_var fs cs i scope st d).
+Proof.
+  induction fs as [|[df dec] fs IH]; intros HF i st d; cbn [d_cont_var]; [apply np_OK|].
+  pose proof (Forall_inv HF) as Hf; pose proof (Forall_inv_tail HF) as Hr. cbn [snd] in Hf.
+  destruct df as [v c|off].
+  - apply np_bind; [apply IH, Hr|]. intros [[vs cs'] st1]. apply np_OK.
+  - match goal with |- np (if ?b then _ else _) => destruct b end; [apply np_Err|].
+    apply np_bind; [apply in_sub_scope_np, Hf|]. intros [[v c] st1].
+    apply np_bind; [apply IH, Hr|]. intros [[vs cs'] st2]. apply np_OK.
+Qed.
+
+Lemma dec_roots_np : forall k st d, np (dec_roots k st d).
+Proof.
+  induction k as [|k IH]; intros st d; cbn [dec_roots]; [apply np_OK|].
+  apply np_bind; [apply dr_read_np|]. intros [[bs st1] d1].
+  apply np_bind; [apply IH|]. intros [[[v c'] st2] d2]. destruct v; try apply np_Err. apply np_OK.
+Qed.
+
+Lemma dec_fixed_fields_np c : forall fs, Forall (fun f => dec_np (flat_dec f)) fs ->
+  forall i st d, np (dec_fixed_fields flat_dec c fs i st d).
+Proof.
+  induction fs as [|f fs IH]; intros HF i st d; cbn [dec_fixed_fields]; [apply np_OK|].
+  pose proof (Forall_inv HF) as Hf; pose proof (Forall_inv_tail HF) as Hr.
+  apply np_bind; [apply Hf|]. intros [[[v c1] st1] d1].
+  apply np_bind; [apply IH, Hr|]. intros [[[vs cs] st2] d2]. apply np_OK.
+Qed.
+
+Lemma flat_dec_np : forall t, dec_np (flat_dec t).
+Proof.
+  induction t as [w| |n| |n|n|e n IHe|e n IHe|fs IHfs|none opts IHopts] using ty_ind';
+    intros c st d.
+  - cbn [flat_dec]. apply np_bind; [apply dr_read_np|]. intros [[bs st1] d1]. apply np_OK.
+  - cbn [flat_dec]. apply np_bind; [apply dr_read_byte_np|]. intros [[b st1] d1].
+    destruct (1 <? b); [apply np_Err|apply np_OK].
+  - cbn [flat_dec]. apply np_bind; [apply d_bytes_np|]. intros [[[bs c'] st1] d1]. apply np_OK.
+  - cbn [flat_dec]. apply np_bind; [apply dr_read_np|]. intros [[bs st1] d1]. apply np_OK.
+  - cbn [flat_dec]. apply np_bind; [apply d_bytes_np|]. intros [[[bs c'] st1] d1].
+    apply np_bind; [apply BitfieldsProofs.bitvector_check_no_panic|]. intros _. apply np_OK.
+  - cbn [flat_dec]. destruct (_ <? _); [apply np_Err|].
+    apply np_bind; [apply d_bytes_np|]. intros [[[bs c'] st1] d1].
+    apply np_bind; [apply BitfieldsProofs.bitlist_check_no_panic|]. intros _. apply np_OK.
+  - rewrite flat_dec_vector. destruct (is_byte_elem e).
+    { apply np_bind; [apply d_bytes_np|]. intros [[[bs c'] st1] d1]. apply np_OK. }
+    cbv zeta. destruct (negb (flat_fixed_len e =? 0)).
+    { apply np_bind; [apply d_vector_fixed_np, IHe|]. intros [[vs cs] st1]. apply np_OK. }
+    apply np_bind; [apply d_read_offsets_np|]. intros [[offs st1] d1].
+    destruct (negb _); [apply np_Err|].
+    apply np_bind; [apply d_var_items_np; intros _; exact IHe|]. intros [[vs cs] st2]. apply np_OK.
+  - rewrite flat_dec_list. cbv zeta. destruct (is_byte_elem e).
+    { destruct (_ <? _); [apply np_Err|].
+      apply np_bind; [apply d_bytes_np|]. intros [[[bs c'] st1] d1]. apply np_OK. }
+    destruct (is_root_elem e).
+    { destruct (negb _); [apply np_Err|]. destruct (_ <? _); [apply np_Err|]. apply dec_roots_np. }
+    destruct (dr_scope d =? 0); [apply np_OK|].
+    destruct (negb (flat_fixed_len e =? 0)).
+    { destruct (negb _); [apply np_Err|]. destruct (_ <? _); [apply np_Err|].
+      apply np_bind; [apply d_vector_fixed_np, IHe|]. intros [[vs cs] st1]. apply np_OK. }
+    apply np_bind; [apply dr_read_u32_np|]. intros [[first st1] d1].
+    destruct (negb _); [apply np_Err|]. destruct (_ <? _); [apply np_Err|].
+    destruct (_ || _); [apply np_Err|].
+    apply np_bind; [apply d_read_offsets_np|]. intros [[offs st2] d2].
+    apply np_bind; [apply d_var_items_np; intros _; exact IHe|]. intros [[vs cs] st3]. apply np_OK.
+  - rewrite flat_dec_cont. destruct (forallb spec_is_fixed fs).
+    { apply np_bind; [apply dec_fixed_fields_np, IHfs|]. intros [[[vs cs] st1] d1]. apply np_OK. }
+    cbv zeta. apply np_bind.
+    { apply d_cont_fixed_np. rewrite Forall_map. cbn [snd]. exact IHfs. }
+    intros [[[dfs prev] st1] d1]. destruct (first_var_off dfs) as [o0|]; [|apply np_Err].
+    destruct (negb _); [apply np_Err|].
+    apply np_bind; [|intros [[vs cs] st2]; apply np_OK].
+    apply d_cont_var_np. clear -IHfs. revert dfs.
+    induction fs as [|f fs IH]; intros dfs; cbn [map]; [destruct dfs; constructor|].
+    pose proof (Forall_inv IHfs) as Hf; pose proof (Forall_inv_tail IHfs) as Hr.
+    destruct dfs as [|df dfs]; cbn [combine]; constructor; [exact Hf|apply IH, Hr].
+  - rewrite flat_dec_union. apply np_bind; [apply dr_read_byte_np|]. intros [[sel st1] d1].
+    destruct (none && (sel =? 0)).
+    { destruct (negb _); [apply np_Err|apply np_OK]. }
+    rewrite pick_ty_nth_error. destruct (nth_error opts _) as [o|] eqn:Hnth; [|apply np_Err].
+    unfold dec_union_opt. destruct (_ && _); [apply np_Err|].
+    apply np_bind; [|intros [[[v c'] st2] d2]; apply np_OK].
+    rewrite Forall_forall in IHopts. apply IHopts. eapply nth_error_In; eassumption.
+Qed.
+
+Lemma C10_no_panic_lemma t c bs : flat_decode t c bs <> Panic.
+Proof.
+  unfold flat_decode, new_reader. apply np_bind; [apply flat_dec_np|].
+  intros [[[v c'] st'] d']. apply np_OK.
+Qed.
+
+(* ------------------------------------------------------------------------------------ *)
+(** * 5. The reader *)
+
+(* Go slice lengths are [int]: below 2^63.  The readers met in a decode have [d_max] below it. *)
+Definition two63 : N := 9223372036854775808.
+
+Definition chain_wf (st : rstate) (ch : list nat) : Prop :=
+  NoDup ch /\ Forall (fun k => (k < length (r_lims st))%nat) ch.
+
+(* reader invariant: index within max, limit readers of the chain distinct and allocated, and the
+   innermost limit reader never lets through more than the remaining scope (the index may lag behind
+   what was consumed, because reads through sub scopes do not advance it) *)
+Definition rd_ok (st : rstate) (d : dreader) : Prop :=
+  d_i d <= d_max d /\ d_max d < two63 /\ chain_wf st (d_chain d) /\
+  avail st (d_chain d) <= dr_scope d.
+
+(* [st'] is [st] after [m] bytes were consumed through the limit readers of chain [ch] *)
+Definition stepped (st st' : rstate) (ch : list nat) (m : N) : Prop :=
+  r_stream st' = skipn (nat_of m) (r_stream st) /\
+  (length (r_lims st) <= length (r_lims st'))%nat /\
+  forall j, In j ch -> lim_get st' j = lim_get st j - m.
+
+Lemma skipn_skipn_add {A} : forall a b (l : list A), skipn b (skipn a l) = skipn (a + b) l.
+Proof. intros. symmetry. apply BitfieldsProofs.skipn_add. Qed.
+
+Lemma firstn_add_app {A} : forall a b (l : list A),
+  firstn (a + b) l = firstn a l ++ firstn b (skipn a l).
+Proof.
+  induction a as [|a IH]; intros b l; [reflexivity|].
+  destruct l as [|x l]; [rewrite !firstn_nil; reflexivity|].
+  cbn [Nat.add firstn skipn app]. rewrite IH. reflexivity.
+Qed.
+
+Lemma stepped_refl st ch : stepped st st ch 0.
+Proof. repeat split; [lia|]. intros j _. lia. Qed.
+
+Lemma stepped_trans st st1 st2 ch m1 m2 :
+  stepped st st1 ch m1 -> stepped st1 st2 ch m2 -> stepped st st2 ch (m1 + m2).
+Proof.
+  intros (S1 & L1 & J1) (S2 & L2 & J2). repeat split.
+  - rewrite S2, S1, skipn_skipn_add. f_equal. unfold nat_of. lia.
+  - lia.
+  - intros j Hj. rewrite J2, J1 by assumption. lia.
+Qed.
+
+Lemma stepped_eq st st' ch m m' : m = m' -> stepped st st' ch m -> stepped st st' ch m'.
+Proof. intros ->. auto. Qed.
+
+Lemma avail_le_stream st ch : avail st ch <= lenN (r_stream st).
+Proof.
+  unfold avail. induction ch as [|a ch IH]; cbn [fold_right]; [apply N.le_refl|]. unfold lenN in *. lia.
+Qed.
+
+Lemma stepped_avail st st' ch m : stepped st st' ch m -> avail st' ch = avail st ch - m.
+Proof.
+  intros (S & _ & J). unfold avail. induction ch as [|a ch IH]; cbn [fold_right].
+  - rewrite S, skipn_length. unfold nat_of. lia.
+  - rewrite IH by (intros j Hj; apply J; right; exact Hj).
+    rewrite (J a) by (left; reflexivity). lia.
+Qed.
+
+Lemma chain_wf_stepped st st' ch m : chain_wf st ch -> stepped st st' ch m -> chain_wf st' ch.
+Proof.
+  intros [ND HF] (_ & L & _). split; [exact ND|]. revert HF. apply Forall_impl. intros k Hk. lia.
+Qed.
+
+Lemma nth_list_set_neq {A} (d : A) : forall (l : list A) i x j, j <> i ->
+  nth j (list_set l i x) d = nth j l d.
+Proof.
+  induction l as [|y l IH]; intros i x j H; [reflexivity|].
+  destruct i as [|i], j as [|j]; cbn [list_set nth]; try reflexivity; [contradiction|].
+  apply IH. intros E. apply H. f_equal. exact E.
+Qed.
+
+Section Consume.
+  Variable k : N.
+  Let F (lims : list N) (ch : list nat) : list N :=
+    fold_right (fun idx ls => list_set ls idx (nth idx ls 0 - k)) lims ch.
+
+  Lemma consume_length lims : forall ch, length (F lims ch) = length lims.
+  Proof.
+    induction ch as [|a ch IH]; [reflexivity|]. unfold F in *. cbn [fold_right].
+    rewrite BitfieldsProofs.list_set_length. exact IH.
+  Qed.
+
+  Lemma consume_notin lims : forall ch j, ~ In j ch -> nth j (F lims ch) 0 = nth j lims 0.
+  Proof.
+    induction ch as [|a ch IH]; intros j Hj; [reflexivity|]. unfold F in *. cbn [fold_right].
+    rewrite nth_list_set_neq by (intros E; apply Hj; left; symmetry; exact E).
+    apply IH. intros Hin. apply Hj. right. exact Hin.
+  Qed.
+
+  Lemma consume_in lims : forall ch j, NoDup ch -> Forall (fun a => (a < length lims)%nat) ch ->
+    In j ch -> nth j (F lims ch) 0 = nth j lims 0 - k.
+  Proof.
+    induction ch as [|a ch IH]; intros j ND HF Hj; [destruct Hj|].
+    inversion ND as [|a' ch' Hna ND']; subst.
+    pose proof (Forall_inv HF) as Ha; pose proof (Forall_inv_tail HF) as HF'. cbv beta in Ha.
+    change (F lims (a :: ch)) with (list_set (F lims ch) a (nth a (F lims ch) 0 - k)).
+    destruct (Nat.eq_dec j a) as [->|Hne].
+    - rewrite BitfieldsProofs.nth_list_set by (rewrite consume_length; exact Ha).
+      rewrite Nat.eqb_refl. rewrite consume_notin by exact Hna. reflexivity.
+    - rewrite nth_list_set_neq by exact Hne. apply IH; auto.
+      destruct Hj as [E|Hj]; [exfalso; apply Hne; symmetry; exact E|exact Hj].
+  Qed.
+End Consume.
+
+Lemma consume_stepped st ch k : chain_wf st ch -> stepped st (consume st ch k) ch k.
+Proof.
+  intros [ND HF]. unfold stepped, consume, lim_get. cbn [r_stream r_lims]. repeat split.
+  - rewrite (consume_length k). lia.
+  - intros j Hj. apply (consume_in k); assumption.
+Qed.
+
+Lemma rd_ok_advance st d st' d' m :
+  rd_ok st d -> stepped st st' (d_chain d) m -> m <= avail st (d_chain d) ->
+  d_chain d' = d_chain d -> d_max d' = d_max d -> d_i d <= d_i d' <= d_i d + m ->
+  rd_ok st' d'.
+Proof.
+  intros (Hi & Hm & Hwf & Hav) Hst Hle Ech Emax Hidx. unfold rd_ok, dr_scope in *.
+  rewrite Ech, Emax. rewrite (stepped_avail _ _ _ _ Hst).
+  split; [lia|]. split; [exact Hm|]. split; [eapply chain_wf_stepped; eassumption|lia].
+Qed.
+
+Lemma rd_ok_same st d st' m :
+  rd_ok st d -> stepped st st' (d_chain d) m -> rd_ok st' d.
+Proof.
+  intros (Hi & Hm & Hwf & Hav) Hst. unfold rd_ok, dr_scope in *.
+  rewrite (stepped_avail _ _ _ _ Hst).
+  split; [lia|]. split; [exact Hm|]. split; [eapply chain_wf_stepped; eassumption|lia].
+Qed.
+
+(* reads *)
+Lemma dr_read_ok st d k : rd_ok st d -> k <= avail st (d_chain d) ->
+  exists st', dr_read st d k =
+              OK (firstn (nat_of k) (r_stream st), st', mkDR (d_i d + k) (d_max d) (d_chain d)) /\
+              stepped st st' (d_chain d) k.
+Proof.
+  intros (Hi & Hm & Hwf & Hav) Hk. unfold dr_read, dr_scope, two63 in *.
+  destruct (N.eqb_spec k 0) as [->|Hk0].
+  - exists st. split; [|apply stepped_refl]. rewrite N.add_0_r. destruct d; reflexivity.
+  - destruct (N.ltb_spec (two64 - 1 - d_i d) k) as [H|_]; [unfold two64 in H; lia|].
+    destruct (N.ltb_spec (d_max d) (d_i d + k)) as [H|_]; [lia|].
+    destruct (N.ltb_spec (avail st (d_chain d)) k) as [H|_]; [lia|].
+    eexists. split; [reflexivity|]. apply consume_stepped, Hwf.
+Qed.
+
+Lemma dr_read_inv st d k bs st' d' : rd_ok st d -> dr_read st d k = OK (bs, st', d') ->
+  k <= avail st (d_chain d) /\ bs = firstn (nat_of k) (r_stream st) /\
+  stepped st st' (d_chain d) k /\ d' = mkDR (d_i d + k) (d_max d) (d_chain d).
+Proof.
+  intros Hok H. pose proof Hok as (Hi & Hm & Hwf & Hav). unfold dr_read in H.
+  destruct (N.eqb_spec k 0) as [->|Hk0].
+  - inversion H; subst. split; [lia|]. split; [reflexivity|]. split; [apply stepped_refl|].
+    rewrite N.add_0_r. destruct d'; reflexivity.
+  - destruct (_ <? k); [discriminate H|]. destruct (d_max d <? _); [discriminate H|].
+    destruct (N.ltb_spec (avail st (d_chain d)) k) as [|Hle]; [discriminate H|].
+    inversion H; subst. split; [exact Hle|]. split; [reflexivity|]. split; [|reflexivity].
+    apply consume_stepped, Hwf.
+Qed.
+
+Lemma firstn_lenN {A} (l : list A) k : k <= lenN l -> lenN (firstn (nat_of k) l) = k.
+Proof. intros H. unfold lenN, nat_of in *. rewrite firstn_length. lia. Qed.
+
+(* sub scopes *)
+Lemma avail_snoc_lims st ch x : Forall (fun k => (k < length (r_lims st))%nat) ch ->
+  avail (mkRS (r_stream st) (r_lims st ++ [x])) ch = avail st ch.
+Proof.
+  intros HF. unfold avail. cbn [r_stream]. induction ch as [|a ch IH]; cbn [fold_right]; [reflexivity|].
+  pose proof (Forall_inv HF) as Ha; pose proof (Forall_inv_tail HF) as HF'. cbv beta in Ha.
+  rewrite IH by exact HF'. unfold lim_get. cbn [r_lims]. rewrite app_nth1 by exact Ha. reflexivity.
+Qed.
+
+Lemma sub_scope_facts st d count :
+  rd_ok st d -> count <= dr_scope d ->
+  let st1 := mkRS (r_stream st) (r_lims st ++ [count]) in
+  let sd := mkDR 0 count (length (r_lims st) :: d_chain d) in
+  dr_sub_scope st d count = OK (st1, sd) /\
+  rd_ok st1 sd /\ avail st1 (d_chain sd) = N.min count (avail st (d_chain d)) /\
+  (forall st2 m, stepped st1 st2 (d_chain sd) m -> stepped st st2 (d_chain d) m).
+Proof.
+  intros (Hi & Hm & [ND HF] & Hav) Hc st1 sd.
+  assert (Eav : avail st1 (d_chain sd) = N.min count (avail st (d_chain d))).
+  { unfold sd, st1. cbn [d_chain]. unfold avail at 1. cbn [fold_right]. fold (avail (mkRS (r_stream st) (r_lims st ++ [count])) (d_chain d)).
+    rewrite avail_snoc_lims by exact HF. unfold lim_get. cbn [r_lims].
+    rewrite app_nth2, Nat.sub_diag by lia. reflexivity. }
+  split; [|split; [|split]].
+  - unfold dr_sub_scope. destruct (N.ltb_spec (dr_scope d) count); [lia|reflexivity].
+  - unfold rd_ok. rewrite Eav. unfold sd, dr_scope in *. cbn [d_i d_max d_chain].
+    repeat split; [lia|lia| | |lia].
+    + constructor; [|exact ND]. intros Hin. rewrite Forall_forall in HF. specialize (HF _ Hin). lia.
+    + unfold st1. cbn [r_lims]. rewrite app_length. cbn [length]. constructor; [lia|].
+      revert HF. apply Forall_impl. intros; lia.
+  - exact Eav.
+  - intros st2 m (S & L & J). unfold st1 in *. cbn [r_stream r_lims] in *.
+    rewrite app_length in L. cbn [length] in L. repeat split; [exact S|lia|].
+    intros j Hj. unfold sd in J. cbn [d_chain] in J. rewrite J by (right; exact Hj).
+    unfold lim_get. cbn [r_lims]. rewrite Forall_forall in HF. rewrite app_nth1 by (apply HF, Hj).
+    reflexivity.
+Qed.
+
+Lemma dr_sub_scope_inv st d count st1 sd :
+  dr_sub_scope st d count = OK (st1, sd) ->
+  count <= dr_scope d /\ st1 = mkRS (r_stream st) (r_lims st ++ [count]) /\
+  sd = mkDR 0 count (length (r_lims st) :: d_chain d).
+Proof.
+  unfold dr_sub_scope. destruct (N.ltb_spec (dr_scope d) count) as [|H]; [discriminate|].
+  intros E. inversion E. auto.
+Qed.
+
+(* ------------------------------------------------------------------------------------ *)
+(** * 6. Round trip: decoding the spec encoding, for any prior state of the destination *)
+
+(* --- bytes and bits --- *)
+Lemma nat_of_lenN {A} (l : list A) : nat_of (lenN l) = length l.
+Proof. unfold nat_of, lenN. apply Nat2N.id. Qed.
+
+Lemma firstn_app_exact {A} (l r : list A) : firstn (nat_of (lenN l)) (l ++ r) = l.
+Proof.
+  rewrite nat_of_lenN. rewrite firstn_app, Nat.sub_diag, firstn_all. cbn [firstn]. apply app_nil_r.
+Qed.
+
+Lemma skipn_app_exact {A} (l r : list A) : skipn (nat_of (lenN l)) (l ++ r) = r.
+Proof.
+  rewrite nat_of_lenN. rewrite skipn_app, Nat.sub_diag, skipn_all. reflexivity.
+Qed.
+
+Lemma lenN_concat {A} (ls : list (list A)) : lenN (concat ls) = sumN (map lenN ls).
+Proof.
+  induction ls as [|l ls IH]; [reflexivity|]. cbn [concat map]. rewrite lenN_app, sumN_cons, IH.
+  reflexivity.
+Qed.
+
+Lemma map_nth_seq {A} (d : A) : forall (X : list A) k, (k <= length X)%nat ->
+  map (fun i => nth i X d) (seq 0 k) = firstn k X.
+Proof.
+  induction X as [|x X IH]; intros k Hk; cbn [length] in Hk.
+  - assert (k = 0)%nat as -> by lia. reflexivity.
+  - destruct k as [|k]; [reflexivity|]. cbn [seq map firstn nth]. f_equal.
+    rewrite <- seq_shift, map_map. cbn [nth]. apply IH. lia.
+Qed.
+
+Lemma bytes_to_bits_btb X n : n <= lenN X ->
+  bytes_to_bits (bits_to_bytes X) n = firstn (nat_of n) X.
+Proof.
+  intros Hn. unfold bytes_to_bits. rewrite <- (map_nth_seq false) by (unfold lenN, nat_of in *; lia).
+  apply map_ext. intros i. unfold byte_testbit.
+  rewrite BitfieldsProofs.btb_testbit by (apply Nat.mod_upper_bound; lia).
+  f_equal. pose proof (Nat.div_mod i 8). lia.
+Qed.
+
+Lemma bytes_to_bits_exact X : bytes_to_bits (bits_to_bytes X) (lenN X) = X.
+Proof. rewrite bytes_to_bits_btb by apply N.le_refl. rewrite nat_of_lenN. apply firstn_all. Qed.
+
+Lemma bytes_to_bits_bitlist X :
+  bytes_to_bits (bits_to_bytes (X ++ [true])) (lenN X) = X.
+Proof.
+  rewrite bytes_to_bits_btb by (rewrite lenN_app; lia). rewrite nat_of_lenN.
+  rewrite firstn_app, Nat.sub_diag, firstn_all. cbn [firstn]. apply app_nil_r.
+Qed.
+
+Lemma le_val_le_bytes_small k n : n < 256 ^ N.of_nat k -> le_val (le_bytes k n) = n.
+Proof. intros H. rewrite BitlenProofs.le_val_le_bytes. apply N.mod_small, H. Qed.
+
+Lemma le_val_u32 n : n < two32 -> le_val (le_bytes 4 n) = n.
+Proof. intros H. apply le_val_le_bytes_small. exact H. Qed.
+
+Lemma pow256 w : 256 ^ N.of_nat (nat_of w) = 2 ^ (8 * w).
+Proof. unfold nat_of. rewrite N2Nat.id. change 256 with (2 ^ 8). rewrite <- N.pow_mul_r. reflexivity. Qed.
+
+Lemma sub64_exact a b : b <= a -> a < two64 -> sub64 a b = a - b.
+Proof.
+  intros H1 H2. unfold sub64, wrap64. unfold two64 in *. rewrite (N.mod_small b) by lia.
+  replace (a + 18446744073709551616 - b) with ((a - b) + 1 * 18446744073709551616) by lia.
+  rewrite N.mod_add by discriminate. apply N.mod_small. lia.
+Qed.
+
+(* --- the round-trip specification of a decoder on one encoding --- *)
+Definition dec_rt (dec : fdecoder) (fx : bool) (enc : list byte) (v : val) : Prop :=
+  forall c st d rest,
+    rd_ok st d -> r_stream st = enc ++ rest ->
+    lenN enc <= avail st (d_chain d) ->
+    (fx = false -> lenN enc = dr_scope d) ->
+    exists c' st' d',
+      dec c st d = OK (v, c', st', d') /\
+      stepped st st' (d_chain d) (lenN enc) /\
+      d_chain d' = d_chain d /\ d_max d' = d_max d /\ d_i d <= d_i d' <= d_i d + lenN enc.
+
+Lemma stepped_stream_rest st st' ch enc rest :
+  r_stream st = enc ++ rest -> stepped st st' ch (lenN enc) -> r_stream st' = rest.
+Proof. intros E (S & _). rewrite S, E. apply skipn_app_exact. Qed.
+
+Lemma read_enc st d enc rest :
+  rd_ok st d -> r_stream st = enc ++ rest -> lenN enc <= avail st (d_chain d) ->
+  exists st', dr_read st d (lenN enc) = OK (enc, st', mkDR (d_i d + lenN enc) (d_max d) (d_chain d)) /\
+              stepped st st' (d_chain d) (lenN enc).
+Proof.
+  intros Hok E Hav. destruct (dr_read_ok st d (lenN enc) Hok Hav) as (st' & Er & Hst).
+  exists st'. rewrite Er, E, firstn_app_exact. auto.
+Qed.
+
+Lemma d_bytes_enc c st d enc rest :
+  rd_ok st d -> r_stream st = enc ++ rest -> lenN enc <= avail st (d_chain d) ->
+  exists st', d_bytes c (lenN enc) st d =
+              OK (enc, reslice c (lenN enc), st', mkDR (d_i d + lenN enc) (d_max d) (d_chain d)) /\
+              stepped st st' (d_chain d) (lenN enc).
+Proof.
+  intros Hok E Hav. destruct (read_enc st d enc rest Hok E Hav) as (st' & Er & Hst).
+  exists st'. unfold d_bytes. rewrite Er. auto.
+Qed.
+
+Lemma read_u32_enc st d o rest :
+  rd_ok st d -> o < two32 -> r_stream st = le_bytes 4 o ++ rest -> 4 <= avail st (d_chain d) ->
+  exists st', dr_read_u32 st d = OK (o, st', mkDR (d_i d + 4) (d_max d) (d_chain d)) /\
+              stepped st st' (d_chain d) 4.
+Proof.
+  intros Hok Ho E Hav.
+  destruct (read_enc st d (le_bytes 4 o) rest Hok E) as (st' & Er & Hst); [exact Hav|].
+  exists st'. unfold dr_read_u32. change (lenN (le_bytes 4 o)) with 4 in *. rewrite Er. cbn [bind].
+  rewrite le_val_u32 by exact Ho. auto.
+Qed.
+
+Lemma in_sub_scope_rt dec fx enc v c st d rest :
+  dec_rt dec fx enc v -> rd_ok st d -> r_stream st = enc ++ rest ->
+  lenN enc <= avail st (d_chain d) ->
+  exists c' st', in_sub_scope dec c (lenN enc) st d = OK (v, c', st') /\
+                 stepped st st' (d_chain d) (lenN enc).
+Proof.
+  intros Hrt Hok E Hav. pose proof Hok as (_ & _ & _ & Hsc).
+  destruct (sub_scope_facts st d (lenN enc) Hok) as (Es & Hok1 & Eav & Hup); [lia|].
+  cbv zeta in *. set (st1 := mkRS _ _) in *. set (sd := mkDR _ _ _) in *.
+  destruct (Hrt c st1 sd rest Hok1 E) as (c' & st' & d' & Ed & Hst & _).
+  - rewrite Eav. lia.
+  - intros _. unfold dr_scope, sd. cbn [d_max d_i]. lia.
+  - exists c', st'. unfold in_sub_scope. rewrite Es. cbn [bind]. rewrite Ed. cbn [bind].
+    split; [reflexivity|]. apply Hup, Hst.
+Qed.
+
+Lemma d_vector_fixed_rt dec fx (g : val -> list byte) cs size d : forall vs i st rest,
+  Forall (fun v => dec_rt dec fx (g v) v /\ lenN (g v) = size) vs ->
+  rd_ok st d -> r_stream st = concat (map g vs) ++ rest ->
+  lenN (concat (map g vs)) <= avail st (d_chain d) ->
+  exists cs' st', d_vector_fixed dec cs i (length vs) size st d = OK (vs, cs', st') /\
+                  stepped st st' (d_chain d) (lenN (concat (map g vs))).
+Proof.
+  induction vs as [|v vs IH]; intros i st rest HF Hok E Hav.
+  - exists [], st. split; [reflexivity|apply stepped_refl].
+  - pose proof (Forall_inv HF) as [Hv Hsz]; pose proof (Forall_inv_tail HF) as HF'.
+    cbn [map concat length d_vector_fixed] in *. rewrite lenN_app in *. rewrite <- app_assoc in E.
+    destruct (in_sub_scope_rt dec fx (g v) v (ct_child cs i) st d _ Hv Hok E) as (c' & st1 & Es & Hst1);
+      [lia|].
+    rewrite <- Hsz. rewrite Es. cbn [bind].
+    pose proof (stepped_stream_rest _ _ _ _ _ E Hst1) as E1.
+    destruct (IH (S i) st1 rest HF' (rd_ok_same _ _ _ _ Hok Hst1) E1) as (cs' & st2 & Ev & Hst2).
+    { rewrite (stepped_avail _ _ _ _ Hst1). lia. }
+    rewrite Hsz. rewrite Ev. cbn [bind]. exists (c' :: cs'), st2. split; [reflexivity|].
+    eapply stepped_eq; [|eapply stepped_trans; [exact Hst1|exact Hst2]]. rewrite Hsz. reflexivity.
+Qed.
+
+Fixpoint offs_from (lens : list N) (start : N) : list N :=
+  match lens with [] => [] | l :: r => start :: offs_from r (start + l) end.
+
+Lemma offs_from_length : forall lens start, length (offs_from lens start) = length lens.
+Proof. induction lens as [|l r IH]; intros start; cbn [offs_from length]; [reflexivity|]. rewrite IH. reflexivity. Qed.
+
+Lemma offs_from_bound : forall lens start B, start + sumN lens <= B ->
+  Forall (fun o => o <= B) (offs_from lens start).
+Proof.
+  induction lens as [|l r IH]; intros start B H; cbn [offs_from]; [constructor|].
+  rewrite sumN_cons in H. constructor; [lia|]. apply IH. lia.
+Qed.
+
+Lemma ser_parts_go_var_only : forall (items : list (list byte)) off,
+  ser_parts_go (map (fun b => (false, b)) items) off =
+  (flat_map (le_bytes 4) (offs_from (map lenN items) off), concat items).
+Proof.
+  induction items as [|b items IH]; intros off; [reflexivity|].
+  cbn [map ser_parts_go offs_from flat_map concat]. rewrite IH. reflexivity.
+Qed.
+
+Lemma ser_parts_var_only (items : list (list byte)) :
+  ser_parts (map (fun b => (false, b)) items) =
+  flat_map (le_bytes 4) (offs_from (map lenN items) (4 * lenN items)) ++ concat items.
+Proof.
+  unfold ser_parts. rewrite ser_parts_go_var_only.
+  rewrite map_map. unfold part_fixed_size. cbn [fst].
+  rewrite (sumN_map_const _ 4) by (apply Forall_forall; intros; reflexivity).
+  rewrite N.mul_comm. reflexivity.
+Qed.
+
+Lemma lenN_flat_map_u32 offs : lenN (flat_map (le_bytes 4) offs) = 4 * lenN offs.
+Proof.
+  induction offs as [|o offs IH]; [reflexivity|]. cbn [flat_map]. rewrite lenN_app, lenN_cons, IH.
+  change (lenN (le_bytes 4 o)) with 4. lia.
+Qed.
+
+Lemma d_read_offsets_rt : forall offs st d rest,
+  Forall (fun o => o < two32) offs -> rd_ok st d ->
+  r_stream st = flat_map (le_bytes 4) offs ++ rest ->
+  4 * lenN offs <= avail st (d_chain d) ->
+  exists st', d_read_offsets (length offs) st d =
+              OK (offs, st', mkDR (d_i d + 4 * lenN offs) (d_max d) (d_chain d)) /\
+              stepped st st' (d_chain d) (4 * lenN offs).
+Proof.
+  induction offs as [|o offs IH]; intros st d rest HF Hok E Hav.
+  - exists st. change (lenN (@nil N)) with 0. rewrite N.mul_0_r, N.add_0_r. split; [|apply stepped_refl].
+    destruct d; reflexivity.
+  - pose proof (Forall_inv HF) as Ho; pose proof (Forall_inv_tail HF) as HF'. cbv beta in Ho.
+    cbn [flat_map length d_read_offsets] in *. rewrite <- app_assoc in E. rewrite lenN_cons in *.
+    destruct (read_u32_enc st d o _ Hok Ho E) as (st1 & Er & Hst1); [lia|].
+    rewrite Er. cbn [bind].
+    assert (Hok1 : rd_ok st1 (mkDR (d_i d + 4) (d_max d) (d_chain d))).
+    { eapply rd_ok_advance; try eassumption; cbn [d_chain d_max d_i]; try reflexivity; lia. }
+    assert (E1 : r_stream st1 = flat_map (le_bytes 4) offs ++ rest).
+    { eapply (stepped_stream_rest st st1 _ (le_bytes 4 o)); [exact E|exact Hst1]. }
+    destruct (IH st1 _ rest HF' Hok1 E1) as (st2 & Ev & Hst2).
+    { cbn [d_chain]. rewrite (stepped_avail _ _ _ _ Hst1). lia. }
+    rewrite Ev. cbn [bind d_i d_max d_chain] in *. exists st2. split.
+    + f_equal. f_equal. f_equal. lia.
+    + eapply stepped_eq; [|eapply stepped_trans; eassumption]. lia.
+Qed.
+
+Lemma d_var_items_rt dec fx (g : val -> list byte) cs vstyle d scope : forall vs i start prev st rest,
+  Forall (fun v => dec_rt dec fx (g v) v) vs ->
+  prev <= start -> scope = start + sumN (map (fun v => lenN (g v)) vs) -> scope < two64 ->
+  rd_ok st d -> r_stream st = concat (map g vs) ++ rest ->
+  lenN (concat (map g vs)) <= avail st (d_chain d) ->
+  exists cs' st',
+    d_var_items (fun _ => dec) cs i (offs_from (map (fun v => lenN (g v)) vs) start) scope prev vstyle st d
+    = OK (vs, cs', st') /\
+    stepped st st' (d_chain d) (lenN (concat (map g vs))).
+Proof.
+  induction vs as [|v vs IH]; intros i start prev st rest HF Hprev Hscope Hlt Hok E Hav.
+  - exists [], st. split; [reflexivity|apply stepped_refl].
+  - pose proof (Forall_inv HF) as Hv; pose proof (Forall_inv_tail HF) as HF'. cbv beta in Hv.
+    cbn [map concat offs_from d_var_items] in *. rewrite sumN_cons in Hscope.
+    rewrite lenN_app in *. rewrite <- app_assoc in E.
+    destruct (N.ltb_spec start prev) as [|_]; [lia|].
+    set (next := match offs_from (map (fun v0 => lenN (g v0)) vs) (start + lenN (g v)) with
+                 | o' :: _ => o' | [] => scope end).
+    assert (Enext : next = start + lenN (g v)).
+    { unfold next. destruct vs as [|v2 vs2]; cbn [map offs_from]; [|reflexivity].
+      rewrite Hscope. change (sumN (map _ [])) with 0. lia. }
+    rewrite Enext. rewrite sub64_exact by lia.
+    replace (start + lenN (g v) - start) with (lenN (g v)) by lia.
+    destruct (in_sub_scope_rt dec fx (g v) v (ct_child cs i) st d _ Hv Hok E) as (c' & st1 & Es & Hst1);
+      [lia|].
+    rewrite Es. cbn [bind].
+    pose proof (stepped_stream_rest _ _ _ _ _ E Hst1) as E1.
+    destruct (IH (S i) (start + lenN (g v)) (if vstyle then start + lenN (g v) else start) st1 rest HF')
+      as (cs' & st2 & Ev & Hst2); try assumption.
+    { destruct vstyle; lia. }
+    { lia. }
+    { eapply rd_ok_same; eassumption. }
+    { rewrite (stepped_avail _ _ _ _ Hst1). lia. }
+    rewrite Ev. cbn [bind]. exists (c' :: cs'), st2. split; [reflexivity|].
+    eapply stepped_trans; eassumption.
+Qed.
+
+Lemma dec_roots_rt : forall (bss : list (list byte)) st d rest,
+  Forall (fun bs => lenN bs = 32) bss -> rd_ok st d ->
+  r_stream st = concat bss ++ rest -> lenN (concat bss) <= avail st (d_chain d) ->
+  exists st' d', dec_roots (length bss) st d = OK (VSeq (map VBytes bss), CFresh, st', d') /\
+                 stepped st st' (d_chain d) (lenN (concat bss)) /\
+                 d_chain d' = d_chain d /\ d_max d' = d_max d /\ d_i d' = d_i d + lenN (concat bss).
+Proof.
+  induction bss as [|bs bss IH]; intros st d rest HF Hok E Hav.
+  - exists st, d. split; [reflexivity|]. split; [apply stepped_refl|].
+    change (lenN (concat [])) with 0. repeat split. lia.
+  - pose proof (Forall_inv HF) as Hbs; pose proof (Forall_inv_tail HF) as HF'. cbv beta in Hbs.
+    cbn [concat length dec_roots map] in *. rewrite lenN_app in *. rewrite <- app_assoc in E.
+    destruct (read_enc st d bs _ Hok E) as (st1 & Er & Hst1); [lia|].
+    rewrite Hbs in Er. rewrite Er. cbn [bind].
+    assert (Hok1 : rd_ok st1 (mkDR (d_i d + 32) (d_max d) (d_chain d))).
+    { eapply rd_ok_advance; try eassumption; cbn [d_chain d_max d_i]; try reflexivity; lia. }
+    pose proof (stepped_stream_rest _ _ _ _ _ E Hst1) as E1.
+    destruct (IH st1 _ rest HF' Hok1 E1) as (st2 & d2 & Ev & Hst2 & Ech & Emax & Eidx).
+    { cbn [d_chain]. rewrite (stepped_avail _ _ _ _ Hst1). lia. }
+    rewrite Ev. cbn [bind d_chain d_max d_i] in *. exists st2, d2. split; [reflexivity|].
+    split; [eapply stepped_trans; eassumption|]. repeat split; try assumption. lia.
+Qed.
+
+(* --- containers --- *)
+Definition FA (fs : list ty) (vs : list val) (off : N) : list byte :=
+  fst (ser_parts_go (ser_fields fs vs) off).
+Definition VA (fs : list ty) (vs : list val) (off : N) : list byte :=
+  snd (ser_parts_go (ser_fields fs vs) off).
+
+Lemma ser_parts_FA_VA fs vs :
+  ser_parts (ser_fields fs vs) =
+  FA fs vs (sumN (map part_fixed_size (ser_fields fs vs))) ++
+  VA fs vs (sumN (map part_fixed_size (ser_fields fs vs))).
+Proof. unfold ser_parts, FA, VA. destruct (ser_parts_go _ _). reflexivity. Qed.
+
+Lemma FA_cons f fs x vs off :
+  FA (f :: fs) (x :: vs) off =
+  if spec_is_fixed f then spec_ser f x ++ FA fs vs off
+  else le_bytes 4 off ++ FA fs vs (off + lenN (spec_ser f x)).
+Proof.
+  unfold FA. cbn [ser_fields ser_parts_go]. destruct (spec_is_fixed f).
+  - destruct (ser_parts_go _ off). reflexivity.
+  - destruct (ser_parts_go _ (off + _)). reflexivity.
+Qed.
+
+Lemma VA_cons f fs x vs off :
+  VA (f :: fs) (x :: vs) off =
+  if spec_is_fixed f then VA fs vs off
+  else spec_ser f x ++ VA fs vs (off + lenN (spec_ser f x)).
+Proof.
+  unfold VA. cbn [ser_fields ser_parts_go]. destruct (spec_is_fixed f).
+  - destruct (ser_parts_go _ off). reflexivity.
+  - destruct (ser_parts_go _ (off + _)). reflexivity.
+Qed.
+
+Definition var_len (fs : list ty) (vs : list val) : N :=
+  sumN (map (fun p : part => if fst p then 0 else lenN (snd p)) (ser_fields fs vs)).
+
+Lemma var_len_cons f fs x vs :
+  var_len (f :: fs) (x :: vs) =
+  (if spec_is_fixed f then 0 else lenN (spec_ser f x)) + var_len fs vs.
+Proof. unfold var_len. cbn [ser_fields map]. rewrite sumN_cons. reflexivity. Qed.
+
+Lemma lenN_FA : forall fs vs off,
+  lenN (FA fs vs off) = sumN (map part_fixed_size (ser_fields fs vs)).
+Proof.
+  induction fs as [|f fs IH]; intros [|x vs] off; try reflexivity.
+  rewrite FA_cons. cbn [ser_fields map]. rewrite sumN_cons. unfold part_fixed_size at 1. cbn [fst snd].
+  destruct (spec_is_fixed f); rewrite lenN_app, IH; [reflexivity|].
+  change (lenN (le_bytes 4 off)) with 4. reflexivity.
+Qed.
+
+Lemma lenN_VA : forall fs vs off, lenN (VA fs vs off) = var_len fs vs.
+Proof.
+  induction fs as [|f fs IH]; intros [|x vs] off; try reflexivity.
+  rewrite VA_cons, var_len_cons. destruct (spec_is_fixed f); [rewrite IH; lia|].
+  rewrite lenN_app, IH. reflexivity.
+Qed.
+
+Lemma var_len_all_fixed : forall fs vs, forallb spec_is_fixed fs = true -> var_len fs vs = 0.
+Proof.
+  induction fs as [|f fs IH]; intros [|x vs] H; try reflexivity.
+  cbn [forallb] in H. apply andb_true_iff in H. destruct H as [H1 H2].
+  rewrite var_len_cons, H1, IH by assumption. reflexivity.
+Qed.
+
+Fixpoint dfs_match (fs : list ty) (vs : list val) (off : N) (dfs : list dfield) : Prop :=
+  match fs, vs, dfs with
+  | [], [], [] => True
+  | f :: fs', x :: vs', df :: dfs' =>
+    if spec_is_fixed f then (exists c, df = DFixed x c) /\ dfs_match fs' vs' off dfs'
+    else df = DVar off /\ dfs_match fs' vs' (off + lenN (spec_ser f x)) dfs'
+  | _, _, _ => False
+  end.
+
+Inductive fields_rt : list ty -> list val -> Prop :=
+| fields_rt_nil : fields_rt [] []
+| fields_rt_cons f fs x vs :
+    dec_rt (flat_dec f) (spec_is_fixed f) (spec_ser f x) x -> fields_rt fs vs ->
+    fields_rt (f :: fs) (x :: vs).
+
+Lemma d_cont_fixed_rt cs : forall fs vs i prev off st d rest,
+  fields_rt fs vs -> forallb wf_ty fs = true -> has_type_fields fs vs = true ->
+  rd_ok st d -> r_stream st = FA fs vs off ++ rest ->
+  lenN (FA fs vs off) <= avail st (d_chain d) ->
+  off + var_len fs vs < two32 -> prev + lenN (FA fs vs off) < two64 ->
+  exists dfs st' d',
+    d_cont_fixed (map (fun f => (flat_fixed_len f, flat_dec f)) fs) cs i prev st d =
+      OK (dfs, prev + lenN (FA fs vs off), st', d') /\
+    dfs_match fs vs off dfs /\
+    stepped st st' (d_chain d) (lenN (FA fs vs off)) /\
+    d_chain d' = d_chain d /\ d_max d' = d_max d /\
+    d_i d <= d_i d' <= d_i d + lenN (FA fs vs off).
+Proof.
+  induction fs as [|f fs IH]; intros vs i prev off st d rest Hrt Hwf Hty Hok E Hav Hoff Hprev;
+    inversion Hrt as [|f' fs' x vs' Hf Hrt']; subst.
+  - exists [], st, d. cbn [map d_cont_fixed]. change (lenN (FA [] [] off)) with 0.
+    rewrite N.add_0_r. split; [reflexivity|]. split; [exact I|]. split; [apply stepped_refl|].
+    repeat split; lia.
+  - cbn [forallb] in Hwf. apply andb_true_iff in Hwf. destruct Hwf as [Hwf1 Hwf2].
+    cbn [has_type_fields] in Hty. apply andb_true_iff in Hty. destruct Hty as [Hty1 Hty2].
+    rewrite FA_cons in *. rewrite var_len_cons in Hoff.
+    cbn [map d_cont_fixed dfs_match]. rewrite flat_fixed_len_zero by assumption.
+    destruct (spec_is_fixed f) eqn:Hfx; cbv iota in Hoff; cbn [negb]; rewrite lenN_app in *;
+      rewrite <- app_assoc in E.
+    + (* fixed-size field, in a sub scope of its size *)
+      assert (Efl : flat_fixed_len f = lenN (spec_ser f x)).
+      { unfold flat_fixed_len. rewrite Hfx. symmetry. apply spec_ser_fixed_len; assumption. }
+      rewrite Efl.
+      destruct (in_sub_scope_rt _ _ _ _ (ct_child cs i) st d _ Hf Hok E) as (c' & st1 & Es & Hst1); [lia|].
+      rewrite Es. cbn [bind].
+      pose proof (stepped_stream_rest _ _ _ _ _ E Hst1) as E1.
+      destruct (IH vs' (S i) (add64 prev (lenN (spec_ser f x))) off st1 d rest Hrt' Hwf2 Hty2)
+        as (dfs & st2 & d2 & Ev & Hm & Hst2 & Ech & Emax & Eidx); try assumption.
+      { eapply rd_ok_same; eassumption. }
+      { rewrite (stepped_avail _ _ _ _ Hst1). lia. }
+      { rewrite add64_small by lia. lia. }
+      rewrite Ev. cbn [bind]. exists (DFixed x c' :: dfs), st2, d2.
+      split; [rewrite add64_small by lia; f_equal; f_equal; f_equal; f_equal; lia|].
+      split; [split; [exists c'; reflexivity|exact Hm]|].
+      split; [eapply stepped_trans; eassumption|]. repeat split; try assumption; lia.
+    + (* variable-size field: its offset *)
+      change (lenN (le_bytes 4 off)) with 4 in *.
+      destruct (read_u32_enc st d off (FA fs vs' (off + lenN (spec_ser f x)) ++ rest) Hok)
+        as (st1 & Er & Hst1); [lia|exact E|lia|].
+      rewrite Er. cbn [bind].
+      assert (Hok1 : rd_ok st1 (mkDR (d_i d + 4) (d_max d) (d_chain d))).
+      { eapply rd_ok_advance; try eassumption; cbn [d_chain d_max d_i]; try reflexivity; lia. }
+      assert (E1 : r_stream st1 = FA fs vs' (off + lenN (spec_ser f x)) ++ rest).
+      { eapply (stepped_stream_rest st st1 _ (le_bytes 4 off)); [exact E|exact Hst1]. }
+      destruct (IH vs' (S i) (add64 prev 4) (off + lenN (spec_ser f x)) st1 _ rest Hrt' Hwf2 Hty2 Hok1 E1)
+        as (dfs & st2 & d2 & Ev & Hm & Hst2 & Ech & Emax & Eidx).
+      { cbn [d_chain]. rewrite (stepped_avail _ _ _ _ Hst1). lia. }
+      { lia. }
+      { rewrite add64_small by lia. lia. }
+      rewrite Ev. cbn [bind d_chain d_max d_i] in *. exists (DVar off :: dfs), st2, d2.
+      split; [rewrite add64_small by lia; f_equal; f_equal; f_equal; f_equal; lia|].
+      split; [split; [reflexivity|exact Hm]|].
+      split; [eapply stepped_trans; eassumption|]. repeat split; try assumption; lia.
+Qed.
+
+Section Nxt.
+  Variable scope : N.
+  Fixpoint nxt_off (l : list (dfield * fdecoder)) : N :=
+    match l with
+    | [] => scope
+    | (DVar o, _) :: _ => o
+    | _ :: l' => nxt_off l'
+    end.
+End Nxt.
+
+Lemma d_cont_var_cons_var off dec rest cs i scope st d :
+  d_cont_var ((DVar off, dec) :: rest) cs i scope st d =
+  let next := nxt_off scope rest in
+  if next <? off then Err else
+  do r <- in_sub_scope dec (ct_child cs i) (next - off) st d; let '(v, c, st1) := r in
+  do more <- d_cont_var rest cs (S i) scope st1 d; let '(vs, cs', st2) := more in
+  OK (v :: vs, c :: cs', st2).
+Proof. reflexivity. Qed.
+
+Lemma nxt_off_match scope : forall fs vs off dfs,
+  dfs_match fs vs off dfs -> scope = off + var_len fs vs ->
+  nxt_off scope (combine dfs (map flat_dec fs)) = off.
+Proof.
+  induction fs as [|f fs IH]; intros [|x vs] off [|df dfs] Hm Hs; cbn [dfs_match] in Hm;
+    try contradiction.
+  - cbn. rewrite Hs. unfold var_len. cbn. lia.
+  - rewrite var_len_cons in Hs. cbn [map combine nxt_off].
+    destruct (spec_is_fixed f).
+    + destruct Hm as [[c ->] Hm]. apply (IH vs); [exact Hm|lia].
+    + destruct Hm as [-> Hm]. reflexivity.
+Qed.
+
+Lemma d_cont_var_rt cs d scope : forall fs vs dfs i off st rest,
+  dfs_match fs vs off dfs -> fields_rt fs vs -> scope = off + var_len fs vs ->
+  rd_ok st d -> r_stream st = VA fs vs off ++ rest ->
+  lenN (VA fs vs off) <= avail st (d_chain d) ->
+  exists cs' st',
+    d_cont_var (combine dfs (map flat_dec fs)) cs i scope st d = OK (vs, cs', st') /\
+    stepped st st' (d_chain d) (lenN (VA fs vs off)).
+Proof.
+  induction fs as [|f fs IH]; intros vs dfs i off st rest Hm Hrt;
+    inversion Hrt as [|f' fs' x vs' Hf Hrt']; subst; intros Hs Hok E Hav; destruct dfs as [|df dfs];
+    cbn [dfs_match] in Hm; try contradiction.
+  - exists [], st. split; [reflexivity|apply stepped_refl].
+  - rewrite VA_cons in *. rewrite var_len_cons in Hs. cbn [map combine].
+    destruct (spec_is_fixed f) eqn:Hfx.
+    + destruct Hm as [[c ->] Hm]. cbn [d_cont_var].
+      destruct (IH vs' dfs (S i) off st rest Hm Hrt') as (cs' & st' & Ev & Hst); try assumption; try lia.
+      rewrite Ev. cbn [bind]. exists (c :: cs'), st'. split; [reflexivity|exact Hst].
+    + destruct Hm as [-> Hm]. rewrite d_cont_var_cons_var. cbv zeta.
+      rewrite (nxt_off_match scope fs vs' (off + lenN (spec_ser f x)) dfs Hm) by lia.
+      destruct (N.ltb_spec (off + lenN (spec_ser f x)) off) as [|_]; [lia|].
+      replace (off + lenN (spec_ser f x) - off) with (lenN (spec_ser f x)) by lia.
+      rewrite lenN_app in *. rewrite <- app_assoc in E.
+      destruct (in_sub_scope_rt _ _ _ _ (ct_child cs i) st d _ Hf Hok E) as (c' & st1 & Es & Hst1); [lia|].
+      rewrite Es. cbn [bind].
+      pose proof (stepped_stream_rest _ _ _ _ _ E Hst1) as E1.
+      destruct (IH vs' dfs (S i) (off + lenN (spec_ser f x)) st1 rest Hm Hrt')
+        as (cs' & st2 & Ev & Hst2); try assumption.
+      { lia. }
+      { eapply rd_ok_same; eassumption. }
+      { rewrite (stepped_avail _ _ _ _ Hst1). lia. }
+      rewrite Ev. cbn [bind]. exists (c' :: cs'), st2. split; [reflexivity|].
+      eapply stepped_trans; eassumption.
+Qed.
+
+Fixpoint fvo (l : list dfield) : option N :=
+  match l with [] => None | DVar o :: _ => Some o | _ :: r => fvo r end.
+
+Lemma first_var_off_fvo dfs : first_var_off dfs = fvo dfs.
+Proof. reflexivity. Qed.
+
+Lemma fvo_match : forall fs vs off dfs,
+  dfs_match fs vs off dfs -> forallb spec_is_fixed fs = false -> fvo dfs = Some off.
+Proof.
+  induction fs as [|f fs IH]; intros [|x vs] off [|df dfs] Hm Hfx; cbn [dfs_match] in Hm;
+    try contradiction; [discriminate Hfx|].
+  cbn [forallb] in Hfx. destruct (spec_is_fixed f); cbn [andb] in Hfx.
+  - destruct Hm as [[c ->] Hm]. cbn [fvo]. eapply IH; eassumption.
+  - destruct Hm as [-> _]. reflexivity.
+Qed.
+
+Lemma dec_fixed_fields_rt c : forall fs vs i off st d rest,
+  fields_rt fs vs -> forallb spec_is_fixed fs = true ->
+  rd_ok st d -> r_stream st = FA fs vs off ++ rest ->
+  lenN (FA fs vs off) <= avail st (d_chain d) ->
+  exists cs' st' d',
+    dec_fixed_fields flat_dec c fs i st d = OK (vs, cs', st', d') /\
+    stepped st st' (d_chain d) (lenN (FA fs vs off)) /\
+    d_chain d' = d_chain d /\ d_max d' = d_max d /\
+    d_i d <= d_i d' <= d_i d + lenN (FA fs vs off).
+Proof.
+  induction fs as [|f fs IH]; intros vs i off st d rest Hrt Hfx Hok E Hav;
+    inversion Hrt as [|f' fs' x vs' Hf Hrt']; subst.
+  - exists [], st, d. change (lenN (FA [] [] off)) with 0. split; [reflexivity|].
+    split; [apply stepped_refl|]. repeat split; lia.
+  - cbn [forallb] in Hfx. apply andb_true_iff in Hfx. destruct Hfx as [Hfx1 Hfx2].
+    rewrite FA_cons, Hfx1 in *. rewrite lenN_app in *. rewrite <- app_assoc in E.
+    cbn [dec_fixed_fields].
+    destruct (Hf (ct_child c i) st d _ Hok E) as (c1 & st1 & d1 & Ed & Hst1 & Ech1 & Emax1 & Eidx1);
+      [lia|discriminate|].
+    rewrite Ed. cbn [bind].
+    assert (Hok1 : rd_ok st1 d1) by (eapply rd_ok_advance; try eassumption; lia).
+    pose proof (stepped_stream_rest _ _ _ _ _ E Hst1) as E1.
+    destruct (IH vs' (S i) off st1 d1 rest Hrt' Hfx2 Hok1 E1)
+      as (cs' & st2 & d2 & Ev & Hst2 & Ech2 & Emax2 & Eidx2).
+    { rewrite Ech1, (stepped_avail _ _ _ _ Hst1). lia. }
+    rewrite Ev. cbn [bind]. exists (c1 :: cs'), st2, d2. split; [reflexivity|].
+    rewrite Ech1 in Hst2. split; [eapply stepped_trans; eassumption|].
+    repeat split; try congruence; lia.
+Qed.
+
+(* --- the induction --- *)
+Definition rt_ok (t : ty) : Prop :=
+  forall v, has_type v t = true -> lenN (spec_ser t v) < two32 ->
+  dec_rt (flat_dec t) (spec_is_fixed t) (spec_ser t v) v.
+
+Lemma series_fixed_enc e vs :
+  ser_parts (map (fun x => (true, spec_ser e x)) vs) = concat (map (spec_ser e) vs).
+Proof.
+  rewrite <- ser_parts_all_fixed, map_map. reflexivity.
+Qed.
+
+Lemma series_var_enc e vs :
+  ser_parts (map (fun x => (false, spec_ser e x)) vs) =
+  flat_map (le_bytes 4) (offs_from (map (fun v => lenN (spec_ser e v)) vs) (4 * lenN vs)) ++
+  concat (map (spec_ser e) vs).
+Proof.
+  rewrite <- (map_map (spec_ser e) (fun b => (false, b))), ser_parts_var_only.
+  rewrite map_map. unfold lenN at 2 4. rewrite map_length. reflexivity.
+Qed.
+
+Lemma elem_len_le e vs x : In x vs ->
+  lenN (spec_ser e x) <= lenN (ser_parts (map (fun x => (spec_is_fixed e, spec_ser e x)) vs)).
+Proof.
+  intros Hin. rewrite ser_series_lenN.
+  pose proof (sumN_map_In_le (fun x => if spec_is_fixed e then lenN (spec_ser e x)
+                                       else 4 + lenN (spec_ser e x)) vs x Hin) as H.
+  cbv beta in H. destruct (spec_is_fixed e); lia.
+Qed.
+
+Lemma elems_rt e vs : rt_ok e -> forallb (fun x => has_type x e) vs = true ->
+  lenN (ser_parts (map (fun x => (spec_is_fixed e, spec_ser e x)) vs)) < two32 ->
+  Forall (fun v => dec_rt (flat_dec e) (spec_is_fixed e) (spec_ser e v) v) vs.
+Proof.
+  intros IHe Hall HL. apply Forall_forall. intros x Hin. apply IHe.
+  - eapply seq_has_type_In; eassumption.
+  - pose proof (elem_len_le e vs x Hin). lia.
+Qed.
+
+Lemma byte_seq_enc vs : forallb (fun x => has_type x (TUint 1)) vs = true ->
+  lenN (concat (map (spec_ser (TUint 1)) vs)) = lenN vs /\
+  map (fun b => VUint (N_of_byte b)) (concat (map (spec_ser (TUint 1)) vs)) = vs.
+Proof.
+  induction vs as [|x vs IH]; intros Hall; [split; reflexivity|].
+  cbn [forallb] in Hall. apply andb_true_iff in Hall. destruct Hall as [Hx Hall].
+  destruct (IH Hall) as [IH1 IH2]. destruct x; cbn [has_type] in Hx; try discriminate Hx.
+  apply N.ltb_lt in Hx. change (2 ^ (8 * 1)) with 256 in Hx.
+  cbn [map concat]. change (spec_ser (TUint 1) (VUint n)) with [byte_of_N n]. cbn [app map].
+  rewrite !lenN_cons, IH1, IH2, BitfieldsProofs.N_of_byte_of_N by exact Hx. split; reflexivity.
+Qed.
+
+Ltac rt_done :=
+  cbn [d_chain d_max d_i]; repeat split; try reflexivity; try assumption; try lia.
+
+Lemma sumN_map_lenN_concat (g : val -> list byte) vs :
+  sumN (map (fun v => lenN (g v)) vs) = lenN (concat (map g vs)).
+Proof. rewrite lenN_concat, map_map. reflexivity. Qed.
+
+Lemma nonneg_fsz e : wf_ty e = true -> negb (flat_fixed_len e =? 0) = spec_is_fixed e.
+Proof. intros H. rewrite flat_fixed_len_zero by exact H. apply negb_involutive. Qed.
+
+Lemma fixed_elems_len e vs : spec_is_fixed e = true -> forallb (fun x => has_type x e) vs = true ->
+  Forall (fun v => lenN (spec_ser e v) = flat_fixed_len e) vs.
+Proof.
+  intros Hfx Hall. apply Forall_forall. intros x Hin. unfold flat_fixed_len. rewrite Hfx.
+  apply spec_ser_fixed_len; [exact Hfx|]. eapply seq_has_type_In; eassumption.
+Qed.
+
+Lemma lenN_concat_const (g : val -> list byte) vs k :
+  Forall (fun v => lenN (g v) = k) vs -> lenN (concat (map g vs)) = lenN vs * k.
+Proof.
+  intros HF. rewrite <- sumN_map_lenN_concat. apply sumN_map_const. exact HF.
+Qed.
+
+Lemma lenN_nil_iff {A} (l : list A) : lenN l = 0 <-> l = [].
+Proof. destruct l; unfold lenN; cbn [length]; split; intros H; try reflexivity; try discriminate; lia. Qed.
+
+(* the body shared by Vector and List when the items are variable-size *)
+Lemma rt_var_items e vs vstyle st d rest (cs : ctree) :
+  Forall (fun v => dec_rt (flat_dec e) false (spec_ser e v) v) vs ->
+  let enc := ser_parts (map (fun x => (false, spec_ser e x)) vs) in
+  lenN enc < two32 -> rd_ok st d -> r_stream st = enc ++ rest ->
+  lenN enc <= avail st (d_chain d) ->
+  exists st1 d1 cs' st2,
+    d_read_offsets (length vs) st d =
+      OK (offs_from (map (fun v => lenN (spec_ser e v)) vs) (4 * lenN vs), st1, d1) /\
+    d_var_items (fun _ => flat_dec e) cs O
+      (offs_from (map (fun v => lenN (spec_ser e v)) vs) (4 * lenN vs)) (lenN enc) 0 vstyle st1 d1
+      = OK (vs, cs', st2) /\
+    stepped st st2 (d_chain d) (lenN enc) /\
+    d_chain d1 = d_chain d /\ d_max d1 = d_max d /\ d_i d1 = d_i d + 4 * lenN vs /\
+    lenN enc = 4 * lenN vs + lenN (concat (map (spec_ser e) vs)).
+Proof.
+  intros HF enc HL Hok E Hav. unfold enc in *. clear enc.
+  rewrite (series_var_enc e vs) in *.
+  set (offs := offs_from (map (fun v => lenN (spec_ser e v)) vs) (4 * lenN vs)) in *.
+  assert (Hlo : lenN offs = lenN vs).
+  { unfold offs, lenN. rewrite offs_from_length, map_length. reflexivity. }
+  rewrite lenN_app, lenN_flat_map_u32, Hlo in *. rewrite <- app_assoc in E.
+  assert (Hb : Forall (fun o => o < two32) offs).
+  { pose proof (offs_from_bound (map (fun v => lenN (spec_ser e v)) vs) (4 * lenN vs)
+                  (4 * lenN vs + lenN (concat (map (spec_ser e) vs)))) as Hb.
+    rewrite sumN_map_lenN_concat in Hb. specialize (Hb (N.le_refl _)). fold offs in Hb.
+    revert Hb. apply Forall_impl. intros; lia. }
+  destruct (d_read_offsets_rt offs st d _ Hb Hok E) as (st1 & Er & Hst1); [lia|].
+  assert (Elen : length offs = length vs) by (unfold offs; rewrite offs_from_length, map_length; reflexivity).
+  rewrite Elen, Hlo in *.
+  set (d1 := mkDR (d_i d + 4 * lenN vs) (d_max d) (d_chain d)) in *.
+  assert (Hok1 : rd_ok st1 d1).
+  { eapply rd_ok_advance; try eassumption; unfold d1; cbn [d_chain d_max d_i]; try reflexivity; lia. }
+  assert (E1 : r_stream st1 = concat (map (spec_ser e) vs) ++ rest).
+  { eapply (stepped_stream_rest st st1 _ (flat_map (le_bytes 4) offs)); [exact E|].
+    rewrite lenN_flat_map_u32, Hlo. exact Hst1. }
+  destruct (d_var_items_rt (flat_dec e) false (spec_ser e) cs vstyle d1
+              (4 * lenN vs + lenN (concat (map (spec_ser e) vs))) vs O (4 * lenN vs) 0 st1 rest HF)
+    as (cs' & st2 & Ev & Hst2); try assumption.
+  { lia. }
+  { rewrite sumN_map_lenN_concat. reflexivity. }
+  { pose proof two32_lt_two64. lia. }
+  { unfold d1. cbn [d_chain]. rewrite (stepped_avail _ _ _ _ Hst1). lia. }
+  exists st1, d1, cs', st2. split; [exact Er|]. split; [exact Ev|].
+  split; [eapply stepped_trans; eassumption|]. unfold d1. rt_done.
+Qed.
+
+Lemma rt_vector e n : wf_ty (TVector e n) = true -> rt_ok e -> rt_ok (TVector e n).
+Proof.
+  intros Hwf IHe v Hty HL. destruct v; cbn [has_type] in Hty; try discriminate Hty.
+  cbn [wf_ty] in Hwf. apply andb_true_iff in Hwf. destruct Hwf as [Hn Hwe]. apply N.leb_le in Hn.
+  apply andb_true_iff in Hty. destruct Hty as [Hlen Hall]. apply N.eqb_eq in Hlen.
+  fold (lenN vs) in Hlen. cbn [spec_ser spec_is_fixed] in *.
+  pose proof (elems_rt e vs IHe Hall HL) as HF.
+  intros c st d rest Hok E Hav Hsc. rewrite flat_dec_vector.
+  destruct (is_byte_elem e) eqn:Eb.
+  { apply is_byte_elem_eq in Eb. subst e. change (spec_is_fixed (TUint 1)) with true in *.
+    rewrite (series_fixed_enc (TUint 1) vs) in *.
+    destruct (byte_seq_enc vs Hall) as [El Ev].
+    destruct (d_bytes_enc c st d _ rest Hok E Hav) as (st' & Er & Hst).
+    rewrite El, Hlen in Er. rewrite Er. cbn [bind]. rewrite Ev.
+    eexists _, _, _. split; [reflexivity|]. split; [exact Hst|]. rt_done. }
+  cbv zeta. rewrite nonneg_fsz by exact Hwe.
+  destruct (spec_is_fixed e) eqn:Hfx.
+  - rewrite (series_fixed_enc e vs) in *.
+    assert (HF' : Forall (fun v => dec_rt (flat_dec e) true (spec_ser e v) v /\
+                                   lenN (spec_ser e v) = flat_fixed_len e) vs).
+    { pose proof (fixed_elems_len e vs Hfx Hall) as HF2. rewrite Forall_forall in *. auto. }
+    destruct (d_vector_fixed_rt (flat_dec e) true (spec_ser e) c (flat_fixed_len e) d vs O st rest HF' Hok E Hav)
+      as (cs' & st' & Ev & Hst).
+    rewrite <- Hlen, nat_of_lenN, Ev. cbn [bind].
+    eexists _, _, _. split; [reflexivity|]. split; [exact Hst|]. rt_done.
+  - specialize (Hsc eq_refl).
+    destruct (rt_var_items e vs true st d rest c) as (st1 & d1 & cs' & st2 & Er & Ev & Hst & Ech & Emax & Eidx & El);
+      try assumption.
+    rewrite <- Hlen, nat_of_lenN, Er. cbn [bind].
+    assert (Ehd : hd (mul64 4 (lenN vs)) (offs_from (map (fun v => lenN (spec_ser e v)) vs) (4 * lenN vs))
+                  = 4 * lenN vs).
+    { destruct vs; [|reflexivity]. change (lenN (@nil val)) with 0 in Hlen. lia. }
+    rewrite Ehd, mul64_small by (unfold two32, two64 in *; lia). rewrite N.eqb_refl. cbn [negb].
+    rewrite <- Hsc, Ev. cbn [bind].
+    eexists _, _, _. split; [reflexivity|]. split; [exact Hst|]. rt_done. Show.
+Qed.
+
+Lemma root_seq_enc vs : forallb (fun x => has_type x TRoot) vs = true ->
+  exists bss, vs = map VBytes bss /\ Forall (fun bs => lenN bs = 32) bss /\
+              concat (map (spec_ser TRoot) vs) = concat bss.
+Proof.
+  induction vs as [|x vs IH]; intros Hall; [exists []; repeat split; constructor|].
+  cbn [forallb] in Hall. apply andb_true_iff in Hall. destruct Hall as [Hx Hall].
+  destruct (IH Hall) as (bss & -> & HF & Ec). destruct x; cbn [has_type] in Hx; try discriminate Hx.
+  apply N.eqb_eq in Hx. exists (bs :: bss). cbn [map concat]. rewrite Ec.
+  split; [reflexivity|]. split; [constructor; assumption|reflexivity].
+Qed.
+
+Lemma rt_list e n : wf_ty (TList e n) = true -> rt_ok e -> rt_ok (TList e n).
+Proof.
+  intros Hwe IHe v Hty HL. destruct v; cbn [has_type] in Hty; try discriminate Hty.
+  cbn [wf_ty] in Hwe.
+  apply andb_true_iff in Hty. destruct Hty as [Hlen Hall]. apply N.leb_le in Hlen.
+  fold (lenN vs) in Hlen. cbn [spec_ser spec_is_fixed] in *.
+  pose proof (elems_rt e vs IHe Hall HL) as HF.
+  intros c st d rest Hok E Hav Hsc. specialize (Hsc eq_refl). rewrite flat_dec_list. cbv zeta.
+  rewrite <- Hsc.
+  destruct (is_byte_elem e) eqn:Eb.
+  { apply is_byte_elem_eq in Eb. subst e. change (spec_is_fixed (TUint 1)) with true in *.
+    rewrite (series_fixed_enc (TUint 1) vs) in *.
+    destruct (byte_seq_enc vs Hall) as [El Ev].
+    destruct (N.ltb_spec n (lenN (concat (map (spec_ser (TUint 1)) vs)))) as [|_]; [lia|].
+    destruct (d_bytes_enc c st d _ rest Hok E Hav) as (st' & Er & Hst).
+    rewrite Er. cbn [bind]. rewrite Ev.
+    eexists _, _, _. split; [reflexivity|]. split; [exact Hst|]. rt_done. }
+  destruct (is_root_elem e) eqn:Er.
+  { apply is_root_elem_eq in Er. subst e. change (spec_is_fixed TRoot) with true in *.
+    rewrite (series_fixed_enc TRoot vs) in *.
+    destruct (root_seq_enc vs Hall) as (bss & -> & HFb & Ec). rewrite Ec in *.
+    assert (El : lenN (concat bss) = lenN bss * 32).
+    { rewrite lenN_concat. apply sumN_map_const. exact HFb. }
+    assert (Elm : lenN (map VBytes bss) = lenN bss) by (unfold lenN; rewrite map_length; reflexivity).
+    rewrite Elm in Hlen.
+    destruct (dec_roots_rt bss st d rest HFb Hok E Hav) as (st' & d' & Ev & Hst & Ech & Emax & Eidx).
+    rewrite El. rewrite N.mod_mul, N.div_mul by discriminate. rewrite N.eqb_refl. cbn [negb].
+    destruct (N.ltb_spec n (lenN bss)) as [|_]; [lia|]. rewrite nat_of_lenN, Ev.
+    eexists _, _, _. split; [reflexivity|]. rewrite <- El. split; [exact Hst|]. rt_done. }
+  destruct (N.eqb_spec (lenN (ser_parts (map (fun x => (spec_is_fixed e, spec_ser e x)) vs))) 0) as [E0|E0].
+  { assert (vs = []) as ->.
+    { destruct vs as [|x vs]; [reflexivity|exfalso]. rewrite ser_series_lenN in E0.
+      cbn [map] in E0. rewrite sumN_cons in E0. destruct (spec_is_fixed e) eqn:Hfx; [|lia].
+      assert (Hx : has_type x e = true) by (eapply seq_has_type_In; [eassumption|left; reflexivity]).
+      rewrite (spec_ser_fixed_len e x Hfx Hx) in E0.
+      pose proof (wf_fixed_len_pos e Hwe Hfx). lia. }
+    eexists _, _, _. split; [reflexivity|]. split; [apply stepped_refl|]. rt_done. }
+  rewrite nonneg_fsz by exact Hwe.
+  destruct (spec_is_fixed e) eqn:Hfx.
+  - rewrite (series_fixed_enc e vs) in *.
+    pose proof (fixed_elems_len e vs Hfx Hall) as HF2.
+    assert (HF' : Forall (fun v => dec_rt (flat_dec e) true (spec_ser e v) v /\
+                                   lenN (spec_ser e v) = flat_fixed_len e) vs).
+    { rewrite Forall_forall in *. auto. }
+    assert (Hpos : 1 <= flat_fixed_len e).
+    { unfold flat_fixed_len. rewrite Hfx. apply wf_fixed_len_pos; assumption. }
+    rewrite (lenN_concat_const (spec_ser e) vs _ HF2) in *.
+    rewrite N.mod_mul, N.div_mul by lia. rewrite N.eqb_refl. cbn [negb].
+    destruct (N.ltb_spec n (lenN vs)) as [|_]; [lia|].
+    destruct (d_vector_fixed_rt (flat_dec e) true (spec_ser e) CFresh (flat_fixed_len e) d vs O st rest HF' Hok E)
+      as (cs' & st' & Ev & Hst).
+    { rewrite (lenN_concat_const (spec_ser e) vs _ HF2). exact Hav. }
+    rewrite nat_of_lenN, Ev. cbn [bind].
+    eexists _, _, _. split; [reflexivity|].
+    rewrite (lenN_concat_const (spec_ser e) vs _ HF2) in Hst. split; [exact Hst|]. rt_done.
+  - destruct (rt_var_items e vs false st d rest CFresh)
+      as (st1 & d1 & cs' & st2 & Er' & Ev & Hst & Ech & Emax & Eidx & El); try assumption.
+    destruct vs as [|x vs'].
+    { exfalso. apply E0. reflexivity. }
+    cbn [length d_read_offsets map offs_from] in Er'.
+    destruct (dr_read_u32 st d) as [[[first st0] d0]| |]; cbn [bind] in Er'; try discriminate Er'.
+    destruct (d_read_offsets (length vs') st0 d0) as [[[offs st1'] d1']| |] eqn:Ero; cbn [bind] in Er';
+      try discriminate Er'.
+    inversion Er'; subst first offs st1' d1'. clear Er'. cbn [bind].
+    rewrite lenN_cons in *.
+    replace (4 * (1 + lenN vs')) with ((1 + lenN vs') * 4) by lia.
+    rewrite N.mod_mul, N.div_mul by discriminate. rewrite N.eqb_refl. cbn [negb].
+    destruct (N.ltb_spec n (1 + lenN vs')) as [|_]; [lia|].
+    destruct (N.eqb_spec ((1 + lenN vs') * 4) 0) as [|_]; [lia|]. cbn [orb].
+    destruct (N.ltb_spec (lenN (ser_parts (map (fun x0 => (false, spec_ser e x0)) (x :: vs'))))
+                         ((1 + lenN vs') * 4)) as [|_]; [lia|].
+    replace (nat_of (1 + lenN vs' - 1)) with (length vs') by (unfold nat_of, lenN; lia).
+    rewrite Ero. cbn [bind].
+    cbn [map offs_from] in Ev |- *. replace ((1 + lenN vs') * 4) with (4 * (1 + lenN vs')) by lia.
+    rewrite Ev. cbn [bind].
+    eexists _, _, _. split; [reflexivity|]. split; [exact Hst|]. rt_done. Show.
+Qed.
